@@ -983,9 +983,47 @@ def check_non_descriptors(stats):
                 stats.nontriv(('D', olabel, dlabel))
 
 
+def check_annotate_after_binding(stats):
+    """annotate applied over a modifier that was already bound (and whose bound wrapper is still held): from then on every
+    view advertises the annotation -- the held object, a fresh lookup on the same instance, another instance, the class."""
+    import sigtools
+    from sigtools import modifiers
+    for dlabel, deco, plain, ann in (("kwoargs('b')", lambda: modifiers.kwoargs('b'), '(a, *, b=2)', '(a: int, *, b=2)'),
+                                     ("posoargs('self', 'a')", lambda: modifiers.posoargs('self', 'a'), '(a, /, b=2)', '(a: int, /, b=2)'),
+                                     ('autokwoargs', lambda: modifiers.autokwoargs, '(a, *, b=2)', '(a: int, *, b=2)')):
+        for hold in (True, False):
+            stats.case()
+            stats.cls('E/annotate after binding')
+            case = {'part': 'E', 'decorator': dlabel, 'held': hold}
+            ns = {}
+            exec('def m(self, a, b=2):\n    return (a, b)\n', ns)
+            try:
+                owner = type('Owner', (object,), {'m': deco()(ns['m'])})
+                x = owner()
+                held = x.m if hold else None
+                first = str(sigtools.signature(x.m))
+                modifiers.annotate(a=int)(owner.__dict__['m'])
+                views = [('the object obtained before', str(sigtools.signature(held))) if hold else ('(nothing held)', ann),
+                         ('the same instance, looked up again', str(sigtools.signature(x.m))),
+                         ('the same instance, through inspect', str(inspect.signature(x.m))),
+                         ('another instance', str(sigtools.signature(owner().m))),
+                         ('the class', str(sigtools.signature(owner.m)).replace('(self, ', '('))]
+            except Exception as e:
+                stats.fail('C18/E/raised-%s' % type(e).__name__, case, '%s on a method, bound, then annotate(a=int) on the class attribute: %s: %s' % (dlabel, type(e).__name__, e))
+                continue
+            bad = [v for v in views if v[1] != ann]
+            if first != plain or bad:
+                stats.fail('C18/E/annotate-after-binding', case, '%s on def m(self, a, b=2), looked up on an instance (%s), then annotate(a=int) applied to the class '
+                           'attribute: before %s; afterwards %s; expected %s everywhere' % (dlabel, 'result held' if hold else 'result dropped', first, bad or views, ann))
+            else:
+                stats.nontriv(('E', dlabel, hold))
+            del held
+
+
 def shard_fixed(arg):
     st = Stats()
     check_non_descriptors(st)
+    check_annotate_after_binding(st)
     return st
 
 
@@ -1041,6 +1079,8 @@ def replay(case, stats):
         run_history(case['history'], stats)
     elif case.get('part') == 'D':
         check_non_descriptors(stats)
+    elif case.get('part') == 'E':
+        check_annotate_after_binding(stats)
     elif case.get('part') == 'C':
         check_reuse((tuple(Par(*p) for p in case['spec1']), tuple(Par(*p) for p in case['spec2']), case['form'], case['sel']), stats)
     else:
